@@ -112,6 +112,9 @@ static void engine_run(void) {
 			ctx_ready[1] = 0;
 			core_set(ctxs[0]);
 		}
+		/* the second context is the harness's own block: start every plan from zeroed storage, so that a
+		 * failed initialisation (device error) leaves the same unseeded state in every execution */
+		memset(ctxs[1], 0, sizeof(ctx_t));
 		cur = 0;
 		for (int i = 0; i < NSLOT; i++) snaps[i].valid = 0;
 		rb_quiet = 0;
